@@ -92,9 +92,7 @@ Inductive leaf_kind :=
 | LRevert (ret : list bterm)
 | LHalt (kind : Z)
 | LStuck (why : Z)
-| LFuel
-| LBadJumpEarly.   (* symbolic JUMPI whose target is invalid: the code raises InvalidJumpDestError for the
-                      whole state before the condition joins the path (reported outcome: exceptional halt) *)
+| LFuel.
 
 Record leaf := mkLeaf { l_path : list cond; l_kind : leaf_kind }.
 
@@ -373,9 +371,15 @@ Fixpoint sexec (fuel : nat) (s : sstate) : list leaf * bool :=
           let '(vt, vf) := visits_of j (ss_visits s) in
           let d := jumpi_decide ct cf vt vf loop in
           if d_follow_true d && negb (is_jumpdest (se_code se) target) then
-            (* as the code does: the invalid-jump error is raised for the whole state,
-               before the condition is added to the path *)
-            ([mkLeaf (ss_path s) LBadJumpEarly], d_logged d)
+            (* an invalid destination: the inputs that take the jump halt, on a path of their own that
+               carries the condition (the code re-executes the instruction there; with a decided
+               condition it records the condition and halts the whole state); the fall-through side of
+               a symbolic condition goes on as usual *)
+            let vis_f := (j, (vt, vf + 1)) :: ss_visits s in
+            let s_f := mkSS (S (ss_pc s)) rest (ss_mem s) (ss_store s) (ss_tstore s)
+                            ((c, false) :: ss_path s) vis_f (ss_ret s) in
+            let r2 := if d_symbolic d && d_follow_false d then sexec f s_f else ([], false) in
+            (mkLeaf ((c, true) :: ss_path s) (LHalt H_BADJUMP) :: fst r2, d_logged d || snd r2)
           else
             let vis_t := if d_symbolic d then (j, (vt + 1, vf)) :: ss_visits s else ss_visits s in
             let vis_f := if d_symbolic d then (j, (vt, vf + 1)) :: ss_visits s else ss_visits s in
